@@ -4,6 +4,7 @@ package c07
 import (
 	"context"
 	"fmt"
+	"hash/fnv"
 	"os"
 	"runtime"
 	"strings"
@@ -73,7 +74,7 @@ func allCases() []caseT {
 						if depth == 0 && a == "decorator.sub.before_out" {
 							continue
 						}
-						for _, b := range []string{"close", "cancel", "close2", "publish", "subscribe"} {
+						for _, b := range []string{"close", "cancel", "close2", "publish", "subscribe", "subscribe-done-ctx"} {
 							for _, cons := range []string{"reading", "notreading", "holding", "nacking"} {
 								out = append(out, caseT{cfgT{buf, pers, block}, depth, a, b, cons})
 							}
@@ -114,6 +115,23 @@ func (r *callRes) wait(d time.Duration) bool {
 	case <-time.After(d):
 		return false
 	}
+}
+
+// pumpGoroutines counts the forwarding goroutines of MessageTransformSubscriberDecorator subscriptions.
+func pumpGoroutines() (int, string) {
+	buf := make([]byte, 4<<20)
+	buf = buf[:runtime.Stack(buf, true)]
+	n := 0
+	var sample string
+	for _, g := range strings.Split(string(buf), "\n\n") {
+		if strings.Contains(g, "messageTransformSubscriberDecorator).Subscribe.func") {
+			n++
+			if sample == "" {
+				sample = g
+			}
+		}
+	}
+	return n, sample
 }
 
 func gochannelGoroutines() (int, string) {
@@ -257,6 +275,7 @@ func runCase(c caseT) (viol []string, forced bool) {
 	forced = park.WaitReached(50 * time.Millisecond)
 	// operation B
 	var bs []*callRes
+	var doneCtxSub chan struct{}
 	closedByB := false
 	switch c.B {
 	case "close":
@@ -280,6 +299,24 @@ func runCase(c caseT) (viol []string, forced bool) {
 				}()
 			}
 			return err
+		}))
+	case "subscribe-done-ctx":
+		// a Subscribe call whose context is already over (a handler that is started while its router shuts down):
+		// whether it is refused or accepted, nothing may be left behind - an accepted subscription's channel closes
+		bs = append(bs, call("B:Subscribe(done ctx)", func() error {
+			dctx, dcancel := context.WithCancel(context.Background())
+			dcancel()
+			ch, err := sub.Subscribe(dctx, "T")
+			if err == nil {
+				doneCtxSub = make(chan struct{})
+				go func() {
+					defer close(doneCtxSub)
+					for m := range ch {
+						m.Ack()
+					}
+				}()
+			}
+			return nil
 		}))
 	}
 	for _, b := range bs {
@@ -336,7 +373,16 @@ func runCase(c caseT) (viol []string, forced bool) {
 			bad("cancel: after cancelling one subscription the other subscription did not receive a probe message within %v", lib.Live)
 		}
 		all = append(all, probe)
-		// the cancelled subscription's channel must close
+		// the cancelled subscription's channel must close although nobody reads it. A receive would hide a forwarding
+		// goroutine that is stuck on the unread channel (the receive itself frees it), so first, without reading: the
+		// forwarding goroutines of the cancelled subscription must end. Only where the count is unambiguous: the two
+		// subscriptions of this entry are the only ones (A and B are not Subscribe calls).
+		if c.Consumer == "notreading" && c.Depth > 0 && c.B != "subscribe" && !strings.Contains(c.A, ".subscribe.") {
+			if !lib.WaitUntil(lib.Live, func() bool { n, _ := pumpGoroutines(); return n <= c.Depth }) {
+				n, sample := pumpGoroutines()
+				bad("cancel: %d decorator forwarding goroutines are alive %v after the unread subscription was cancelled, want %d (those of the other subscription), e.g.\n%s", n, lib.Live, c.Depth, sample)
+			}
+		}
 		if c.Consumer == "notreading" {
 			go func() {
 				defer close(closed1)
@@ -349,6 +395,16 @@ func runCase(c caseT) (viol []string, forced bool) {
 		case <-closed1:
 		case <-time.After(lib.Live):
 			bad("cancel: the output channel of the cancelled subscription (consumer %s) was not closed within %v", c.Consumer, lib.Live)
+		}
+	}
+	if c.B == "subscribe-done-ctx" {
+		// (the call may legitimately wait for a blocking Publish that is in flight: then it is judged after the final Close)
+		if bs[0].wait(30*time.Millisecond) && doneCtxSub != nil {
+			select {
+			case <-doneCtxSub:
+			case <-time.After(lib.Live):
+				bad("cancel: the output channel of a subscription made with an already cancelled context was not closed within %v", lib.Live)
+			}
 		}
 	}
 	// final Close
@@ -387,6 +443,13 @@ func runCase(c caseT) (viol []string, forced bool) {
 			bad("close: output channel of the %s not closed within %v after Close returned", name, lib.Live)
 		}
 	}
+	if c.B == "subscribe-done-ctx" && bs[0].wait(0) && doneCtxSub != nil {
+		select {
+		case <-doneCtxSub:
+		case <-time.After(lib.Live):
+			bad("close: the output channel of a subscription made with an already cancelled context is not closed %v after Close returned", lib.Live)
+		}
+	}
 	if err := g.Publish("T", message.NewMessage("late", nil)); err == nil {
 		bad("close: Publish after Close returned nil")
 	}
@@ -405,6 +468,12 @@ func runCase(c caseT) (viol []string, forced bool) {
 	}
 	mu.Unlock()
 	return viol, forced
+}
+
+func sliceOf(id string, slices int) int {
+	h := fnv.New32a()
+	h.Write([]byte(id))
+	return int(h.Sum32() % uint32(slices))
 }
 
 func journal(id string) {
@@ -429,12 +498,14 @@ func TestPairwiseTable(t *testing.T) {
 		slice, slices = sh, shs
 	}
 	ran, achieved := 0, 0
-	for i, c := range cases {
+	for _, c := range cases {
 		if only != "" {
 			if c.id() != only {
 				continue
 			}
-		} else if i%slices != slice {
+		} else if sliceOf(c.id(), slices) != slice {
+			// (by a hash of the entry, not by its index: the index is aligned with the enumeration order, so that
+			// i%8 would give every slice only some of the operations)
 			continue
 		}
 		journal(c.id())
